@@ -275,6 +275,7 @@ def explore(c, per_seed):
     w = Worker()
     try:
         sd = seeds(c.rng)
+        exhaustive = {}
         missing = [e for e in w.eps if e not in sd]
         if missing:
             c.broken.append(("entry-points-without-seeds", ",".join(missing)))
@@ -285,6 +286,11 @@ def explore(c, per_seed):
             for s in sd[ep]:
                 judge(c, ep, "valid", s, w.call(ep, s, text), True)
                 muts = text_mutants(c.rng, s.decode("utf-8", "replace"), per_seed) if text else byte_mutants(c.rng, s, per_seed)
+                if text and ep in ("descriptor", "desc.key", "parse_path", "address", "bip39.to_bytes", "slip39.share", "hdkey.from_string", "wif") \
+                        and len(s) <= 700 and exhaustive.get(ep, 0) < (3 if per_seed <= 8 else 12):
+                    # every prefix of a few valid texts (a parser must also end when the text stops anywhere)
+                    exhaustive[ep] = exhaustive.get(ep, 0) + 1
+                    muts = muts + [("truncate-every", s[:k]) for k in range(len(s))]
                 if ep in ("psbt.parse", "psbt.parse.c1", "psbtview"):
                     muts = muts + psbt_targeted(c.rng, s)[: per_seed * 2]
                 for kind, m in muts:
